@@ -11,6 +11,7 @@ CONSTANTS
   DevKeyId = FALSE
   DevDelCertView = FALSE
   DevCertObj = FALSE
+  DevEmptyObj = FALSE
 SYMMETRY Perms
 INVARIANT MappingViews
 INVARIANT Containment
